@@ -757,6 +757,29 @@ def c15_cases(ctx):
             toks[i], toks[j] = toks[j], toks[i]
         line = pad_tokens(ctx.rng, [t for t in toks if t != ''] or ['x'])
         cases.append(Case('uciparse ' + hex_token(line), 'token-mutation'))
+    # a duplicated go parameter (value-carrying or flag) after an otherwise valid line is a parse error, never accepted
+    for _ in range(ctx.scale(3000, 60000)):
+        while True:
+            toks, _ = gen_uci_command(ctx.rng, fens)
+            keys = [t for t in toks[1:] if t in GO_KEYS] if toks[0] == 'go' else []
+            if keys:
+                break
+        dup = ctx.rng.pick(keys)
+        extra = [dup] + ([] if dup in ('ponder', 'infinite', 'searchmoves') else [str(ctx.rng.below(100))])
+        cases.append(Case('uciparse ' + hex_token(pad_tokens(ctx.rng, toks + extra)), 'go-duplicate-parameter', expect='err dup'))
+    # characters whose code point differs from a valid file/rank/promotion character by a multiple of 256 (or that are
+    # non-ASCII look-alikes) must not be read as that character
+    def alias(c):
+        return chr(ord(c) + 256 * ctx.rng.pick([1, 2, 3, 0xFE, 0xFF, 0x100, 0x1F0]))
+    for _ in range(ctx.scale(4000, 80000)):
+        m = rand_uci_move(ctx.rng)
+        i = ctx.rng.below(len(m))
+        bad = m[:i] + alias(m[i]) + m[i + 1:]
+        if i < 4:
+            cases.append(Case('ucimove ' + hex_token(bad), 'aliased-character-move-text', expect='err'))
+            cases.append(Case('uciparse ' + hex_token('position startpos moves e2e4 ' + bad), 'aliased-character-move-text', expect='err move'))
+        else:
+            cases.append(Case('ucimove ' + hex_token(bad), 'aliased-character-move-text', expect='err'))
     alphabet = ''.join(chr(32 + i) for i in range(95)) + '\t\n\r　٣é中😀'
     for _ in range(ctx.scale(8000, 200000)):
         s = ''.join(ctx.rng.pick(alphabet) for _ in range(ctx.rng.below(40)))
@@ -832,6 +855,8 @@ def render_pgn(rng, game_list):
 def c17_cases(ctx):
     cases = []
     gs = games(ctx, ctx.scale(500, 8000), 90)
+    # a few very long games (several hundred moves: three-digit move numbers)
+    gs = gs + [g for g in games(ctx, ctx.scale(12, 200), 900) if len(g) > 520][:ctx.scale(4, 40)]
     reqs = ['spec:gamesan %s' % ' '.join(g) for g in gs]
     ans = core.run_model(reqs)
     pool = []
@@ -850,9 +875,13 @@ def c17_cases(ctx):
         pool.append((tags, sans, final.strip()))
     ctx.notes.append('pgn pool: %d games, %d with castling' % (len(pool), sum(1 for p in pool if any(s.startswith('O-O') for s in p[1]))))
     n = ctx.scale(250, 4000)
+    longs = [p for p in pool if len(p[1]) > 520]
+    ctx.notes.append('very long games (> 260 moves) in the pool: %d' % len(longs))
     for i in range(n):
         k = ctx.rng.pick([0, 1, 1, 2, 2, 3, 5])
         sel = [ctx.rng.pick(pool) for _ in range(k)] if pool else []
+        if longs and i % 25 == 0:
+            sel = [ctx.rng.pick(longs)] + sel[:1]
         data, exp, finals = render_pgn(ctx.rng, sel)
         tok = 'x:' + data.hex()
         chunks = [1, 2, 3, 5, 7, 8, 13, 16, 31, 64, 100, 8192] if i < n // 6 else [ctx.rng.pick([1, 2, 3, 4, 5, 6, 7, 8, 9, 11, 16, 17, 32, 33, 63, 64, 128, 1000, 8192]) for _ in range(3)]
